@@ -83,6 +83,12 @@ func execRun(pd *PropDef, seed uint64, tier string, ch *vsim.Choices, keepOps bo
 	t0 := time.Now()
 	r := NewRun(pd.ID, seed, tier, ch)
 	defer r.Close()
+	if d := os.Getenv("UPFSIM_DUMPLOG"); d != "" {
+		r.Sim.KeepLog = true
+		defer func() {
+			os.WriteFile(fmt.Sprintf("%s/%s-%d-%016x.log", d, pd.ID, seed, r.Sim.LogHash()), []byte(strings.Join(r.Sim.LogLines, "\n")), 0o644)
+		}()
+	}
 	func() {
 		defer func() {
 			if x := recover(); x != nil {
